@@ -1,6 +1,6 @@
 import c13_driver
 PROPS = {
-    "C13": dict(variant="asan", cases=(24, 240), timeout=900, chunk=1, level="exploration", min_nontrivial=12,
+    "C13": dict(variant="asan", cases=(24, 120), timeout=900, chunk=1, level="exploration", min_nontrivial=12,
                 driver=c13_driver.driver,
                 rule="case = one script, a pure function of (seed, index): index mod 8 selects the kind (local polynomial twice, global, Fourier, wavelet, "
                      "sequence, ParticleSwarm, random family); a grid script draws a configuration (rule, dims 2..4, outputs, selection type, anisotropic "
@@ -11,8 +11,8 @@ PROPS = {
                      "coefficients, quadrature weights, basis integrals, supports, polynomial spaces, surrogate / gradient / interpolation and differentiation "
                      "weights / basis values at probes, evaluateBatch at 96 points, sparse basis matrices at 96 points, C-interface batch interpolation "
                      "weights, anisotropy estimates, candidate lists); a swarm script runs 2..4 segments of 1..12 iterations with 8..4000 particles. Every "
-                     "script runs once in the serial build and 11 times (thorough 40) in the OpenMP build under the thread settings listed in the evidence; "
-                     "a third of the scripts (thorough: half) also run under clang+libomp+Archer+TSan at 4 and 8 threads. non-trivial = at least one OpenMP "
+                     "script runs once in the serial build and 11 times (thorough 16) in the OpenMP build under the thread settings listed in the evidence; "
+                     "a third of the scripts also run under clang+libomp+Archer+TSan at 4 and 8 threads. non-trivial = at least one OpenMP "
                      "run was compared step by step with the serial run; distinct = distinct (configuration signature | operation sequence)",
                 assumptions=["schedules are the ones the OS produced for the listed thread settings (oversubscription, dynamic adjustment, spinning vs sleeping waits, "
                              "8 threads squeezed onto 2 CPUs); there is no controlled scheduler",
